@@ -134,20 +134,36 @@ def import_shape_rule(crate, prop, rule="C03.R3"):
     r.inst(fn=es.path, generate_imports_at=[(t["fn"].get("args") or ["?"])[0] for t in calls], erased=ok)
     if not ok:
         r.fail(prop, "imports-on-unerased-type export_to_string", "generate_imports is not instantiated at <T as TS>::WithoutGenerics: concrete type arguments would be imported although the declaration is generic", es.file(), es.line())
-    # self filter: a closure of generate_imports compares type_id with TypeId::of::<T>()
-    filt = False
-    for b in crate.bodies:
-        if b.path.startswith("export::generate_imports::{closure"):
-            names = [M.callee_res(t) or "" for _, t in b.calls()]
-            if any(n.endswith("TypeId::of") for n in names) and any(re.search(r"PartialEq.*::(ne|eq)$|cmp::PartialEq::(ne|eq)$", n) for n in names):
-                filt = True
-    uses_filter = any(fn_matches(t, r"Iterator::filter$") for _, t in gi.calls())
-    r.inst(fn=gi.path, self_filter=filt and uses_filter)
-    if not (filt and uses_filter):
-        r.fail(prop, "self-import-filter-missing generate_imports", "dependencies are not filtered by `type_id != TypeId::of::<T>()`: a recursive type would import itself", gi.file(), gi.line())
-    # same-file test
+    # self filter: the dependency's TypeId is compared with TypeId::of::<T>() - in the body (helpers spliced in) the
+    # outcome guards the insertion; in a closure handed to an iterator adaptor it is the adaptor's predicate
+    gi = crate.ibody("export::generate_imports")
+    group = crate.owned_by("export::generate_imports")
+    def is_tid_cmp(t):
+        return fn_matches(t, r"PartialEq.*::(ne|eq)$", r"cmp::PartialEq::(ne|eq)$") and any("TypeId" in a for a in (t.get("arg_tys") or []))
+    has_of = any(fn_matches(t, r"TypeId::of$") for b in crate.bodies if b.path in group for _, t in b.calls())
     ins = [(b, t) for b, t in gi.calls() if fn_matches(t, r"BTreeSet::<T(, A)?>::insert$") and not gi.is_cleanup(b)]
     ip = [(b, t) for b, t in gi.calls() if fn_matches(t, r"export::import_path$") and not gi.is_cleanup(b)]
+    filt = False
+    for b in crate.bodies:
+        if b.path in group and b.kind == "Closure" and any(is_tid_cmp(t) for _, t in b.calls()):
+            filt = True
+    for blk in range(gi.n):
+        term = gi.term(blk)
+        if term["k"] != "switch" or gi.is_cleanup(blk) or op_place(term["discr"]) is None:
+            continue
+        call, pos = M.flag_polarity(gi, op_place(term["discr"])["l"])
+        if call is None or not is_tid_cmp(call):
+            continue
+        # pos: the switched value is true iff the two TypeIds are equal (negations and `ne` already counted)
+        zero = [tg for v, tg in term["targets"] if v == 0]
+        differ_edge = (zero[0] if zero else None) if pos else term["otherwise"]
+        keyed_inserts = [b for b, t in gi.calls() if not gi.is_cleanup(b) and fn_matches(t, r"BTree(Set|Map)::<.*>::insert$", r"btree_map::Entry.*::or_")]
+        if differ_edge is not None and any(gi.dominates(differ_edge, b) for b in keyed_inserts):
+            filt = True
+    r.inst(fn=gi.path, self_filter=filt and has_of)
+    if not (filt and has_of):
+        r.fail(prop, "self-import-filter-missing generate_imports", "dependencies are not filtered by `type_id != TypeId::of::<T>()`: a recursive type would import itself", gi.file(), gi.line())
+    # same-file test
     if not ins or not ip:
         r.fail(prop, "anchor-missing import insertion", "no BTreeSet::insert / import_path call in generate_imports", gi.file(), gi.line())
         return r
@@ -159,44 +175,16 @@ def import_shape_rule(crate, prop, rule="C03.R3"):
         pl = op_place(term["discr"])
         if pl is None or gi.local_ty(pl["l"]) != "bool":
             continue
-        # walk the Option-adaptor chain that produces the flag: file_name().and_then(..).map(..).map(..).map(..).unwrap_or(false)
-        from_file_name, cap = False, False
-        cur, steps = pl["l"], 0
-        while cur is not None and steps < 40:
-            steps += 1
-            ds = M.def_sites(gi, cur)
-            if len(ds) != 1:
-                break
-            db, i, d = ds[0]
-            if i != "term":
-                rv = d["rv"]
-                nxt = op_place(rv["op"]) if rv["k"] in ("use", "cast") else (rv.get("pl") if rv["k"] == "ref" else None)
-                cur = nxt["l"] if nxt else None
-                continue
-            if fn_matches(d, r"path::Path::file_name$"):
-                from_file_name = True
-                break
-            if fn_matches(d, r"option::Option::<T>::(map|and_then|unwrap_or|filter|is_some_and|map_or)"):
-                for a in d["args"][1:]:
-                    l2 = op_local(a)
-                    if l2 is None:
-                        continue
-                    for o in origins(gi, l2):
-                        if o["kind"] == "agg" and o["rv"].get("closure"):
-                            for op in o["rv"]["ops"]:
-                                l3 = op_local(op)
-                                if l3 is not None and any(x["kind"] == "call" and fn_matches(x["t"], r"export::import_path$") for x in origins(gi, l3)):
-                                    cap = True
-                cur = op_local(d["args"][0])
-                continue
-            if fn_matches(d, *M.IDENTITY_CALLS):
-                cur = op_local(d["args"][0])
-                continue
-            break
+        calls, _, _ = M.deep_slice(gi, pl["l"])
+        from_file_name = any(fn_matches(t, r"path::Path::file_name$") for _, t in calls)
+        cap = any(fn_matches(t, r"export::import_path$") for _, t in calls)
         if not from_file_name:
             continue
-        f_t = [tg for v, tg in term["targets"] if v == 0]
-        if f_t and all(gi.dominates(f_t[0], b) for b, _ in ins):
+        call, pos = M.flag_polarity(gi, pl["l"])
+        zero = [tg for v, tg in term["targets"] if v == 0]
+        # the flag says "same file" (an equality, or an Option chain ending in unwrap_or(false)); negations were counted
+        not_same_edge = (zero[0] if zero else None) if pos else term["otherwise"]
+        if not_same_edge is not None and all(gi.dominates(not_same_edge, b) for b, _ in ins):
             ok_any = True
             r.inst(fn=gi.path, same_file_test_block=blk, derived_from_import_path=cap, dominates_insertion=True)
             if not cap:
